@@ -139,6 +139,19 @@ def replay_frame(arg):
         except Exception as ex:
             mism.append(("raised", "raised %r" % (ex,), rep))
             continue
+        if how == "manager" and areas:
+            # the manager's own cropping of the non-detection areas (every scaled box removed from every area)
+            try:
+                cropped = _mgr(t0, t1, cfg["minPts"]).crop_pointcloud(real, cl, [area_list(a) for a in areas])
+                for k, a in enumerate(out["areas"]):
+                    must = {index[tuple(p)] for p in a["must"]}
+                    may = {index[tuple(p)] for p in a["may"]}
+                    gk = ids(cropped[k])
+                    if not (must <= gk <= may):
+                        mism.append(("manager-crop-pointcloud", "area %d: manager.crop_pointcloud keeps %d points, specification must %d may %d (extra %s)" % (
+                            k, len(gk), len(must), len(may), sorted(gk - may)[:5]), rep))
+            except Exception as ex:
+                mism.append(("raised", "manager.crop_pointcloud raised %r" % (ex,), rep))
         where = {}
         for name, lst in (("success", fr.detection_success_results), ("fail", fr.detection_fail_results), ("warning", fr.detection_warning_results)):
             for r in lst:
